@@ -228,10 +228,10 @@ func c16LimSpec(t *testing.T, cfg *c16LimCfg) *seqmc.Spec[*c16LimInst, c16LimOp]
 					return seqmc.Violation("limiter-global-rpm-exceeded", "%d requests accepted inside one minute (ages %s), global limit %d", len(in.acc), in.showAcc(), cfg.rpm)
 				}
 				if n > cfg.perPeer {
-					return seqmc.Violation("limiter-per-peer-rpm-exceeded", "%d requests of peer %s accepted inside one minute (ages %s), per-peer limit %d", n, c16PeerIDs[op.peer], in.showAcc(), cfg.perPeer)
+					return seqmc.Violation("limiter-per-peer-rpm-exceeded", "%d requests of peer %s accepted inside one minute (ages %s), per-peer limit %d", n, string(c16PeerIDs[op.peer]), in.showAcc(), cfg.perPeer)
 				}
 				if in.inflight[op.peer] > cfg.conc {
-					return seqmc.Violation("limiter-concurrent-per-peer-exceeded", "%d requests of peer %s in flight, limit %d", in.inflight[op.peer], c16PeerIDs[op.peer], cfg.conc)
+					return seqmc.Violation("limiter-concurrent-per-peer-exceeded", "%d requests of peer %s in flight, limit %d", in.inflight[op.peer], string(c16PeerIDs[op.peer]), cfg.conc)
 				}
 			case 1:
 				ok := in.rl.AcceptDialDataRequest()
@@ -263,7 +263,7 @@ func c16LimSpec(t *testing.T, cfg *c16LimCfg) *seqmc.Spec[*c16LimInst, c16LimOp]
 func (in *c16LimInst) showAcc() string {
 	var s []string
 	for _, a := range in.acc {
-		s = append(s, fmt.Sprintf("%s@-%s", c16PeerIDs[a.peer], in.clk.t.Sub(a.at)))
+		s = append(s, fmt.Sprintf("%s@-%s", string(c16PeerIDs[a.peer]), in.clk.t.Sub(a.at)))
 	}
 	return strings.Join(s, " ")
 }
@@ -283,7 +283,7 @@ func c16Limiter(t *testing.T) {
 	var cfgs []*c16LimCfg
 	dFine, dFineWide := 12, 8
 	if vrep.Thorough() {
-		dFine, dFineWide = 12, 10
+		dFine, dFineWide = 15, 10
 	}
 	for _, conc := range []int{1, 2} {
 		// to closure on a 10 s grid: every history of any length over the alphabet
